@@ -509,6 +509,12 @@ func symUnop(fr *frame, op token.Token, x value) value {
 func symConv(fr *frame, t_dst, t_src types.Type, x value) value {
 	bd, ok := t_dst.Underlying().(*types.Basic)
 	if !ok {
+		if ss, isStr := x.(symStr); isStr {
+			if _, isSlice := t_dst.Underlying().(*types.Slice); isSlice {
+				// string -> []byte / []rune of a symbolic string: concretize over the atoms' finite domains
+				return conv(t_dst, t_src, fr.i.ex.concStr(ss))
+			}
+		}
 		panic(engineError{fmt.Sprintf("symConv: to %s", t_dst)})
 	}
 	switch x := x.(type) {
